@@ -17,7 +17,6 @@ theorem validB_tree_struct (E : Ext) (env : Env) (fl : Flags) (cls c : String) (
   simp only [isNoneV, Bool.and_false, Bool.false_eq_true, if_false]
 
 theorem getDefault_pre (E : Ext) (env : Env) (hwf : envWF env = true) (t : PTy) (ht : tyWF env t = true)
-    (htree : ∀ fl c, t = .tree fl c → fl.nullable = false → hasDefault env t = false)
     (hd : hasDefault env t = true) : Pre E env t (getDefault t) := by
   by_cases hn : t.flags.nullable = true
   · rw [getDefault_nullable t hn]; exact Pre_nullable_none E env t hn
@@ -37,8 +36,9 @@ theorem getDefault_pre (E : Ext) (env : Env) (hwf : envWF env = true) (t : PTy) 
         simp only [attrHas, attrGet, lookupSlot]
         cases hfn : f.attrNullable <;> simp_all
     | tree fl c =>
+      -- `StructTree.has_default()` is `False`: a non-nullable tree type has no implicit default
       simp only [PTy.flags] at hn'
-      rw [htree fl c rfl hn'] at hd; cases hd
+      simp [hasDefault, PTy.flags, hn'] at hd
     | void fl => simp [Pre]
     | _ => simp_all [hasDefault, PTy.flags]
 
@@ -300,14 +300,12 @@ theorem mkUnion_sound (E : Ext) (env : Env) (hwf : envWF env = true) (fl : Flags
           (fun _ => by rw [hty]; exact (validate_sound E env _ x x' hpre hvt).1)
 
 
-theorem noDefaultedTrees_field (env : Env) (h : noDefaultedTrees env = true) (c : String) (s : StructDef)
-    (hs : env.struct? c = some s) (f : FieldDef) (hf : f ∈ s.allAttrs) :
-    ∀ fl c', f.ty = .tree fl c' → fl.nullable = false → hasDefault env f.ty = false := by
-  intro fl c' hty hn
-  simp only [noDefaultedTrees, List.all_eq_true] at h
-  have := h s (struct?_mem env c s hs).1 f hf
-  rw [hty] at this ⊢
-  simpa [hn] using this
+/-- `noDefaultedTrees` (formerly a hypothesis of the soundness theorems) holds of every environment now that
+`hasDefault` of a `.tree` validator is `false` unless it is nullable. -/
+theorem noDefaultedTrees_holds (env : Env) : noDefaultedTrees env = true := by
+  simp only [noDefaultedTrees, List.all_eq_true]
+  intro s _ f _
+  cases hty : f.ty <;> simp [hasDefault, PTy.flags]
 
 theorem visible_public (env : Env) (perms : List String) (h : visibleTagsPublic env perms = true) (c : String)
     (u : UnionDef) (hu : env.union? c = some u) (t : TagDef) (ht : t ∈ u.levels.flatMap (·.tags))
@@ -399,8 +397,8 @@ section
 variable (E : Ext) (env : Env) (perms : List String) (strict : Bool)
   (hwf : envWF env = true) (hff : fieldFlagsWF env = true)
   (hcat : strict = true ∨ noCatchAllTrees env = true)
-  (hvis : visibleTagsPublic env perms = true) (hdt : noDefaultedTrees env = true)
-include hwf hff hcat hvis hdt
+  (hvis : visibleTagsPublic env perms = true)
+include hwf hff hcat hvis
 set_option linter.unusedSectionVars false
 
 /-- `finishStruct_sound` with its hypotheses discharged from the environment-level ones -/
@@ -415,7 +413,7 @@ theorem finishStruct_valid (cls : String) (s : StructDef) (hs : env.struct? cls 
   have hparts := StructDef.wf_parts env s (envWF_struct env hwf cls s hs)
   refine finishStruct_sound E env perms strict cls s kvs children v hwf hff hs ?_ ?_ h
   · intro f hf hd
-    exact getDefault_pre E env hwf f.ty (hparts.2.2.2.1 f hf).1 (noDefaultedTrees_field env hdt cls s hs f hf) hd
+    exact getDefault_pre E env hwf f.ty (hparts.2.2.2.1 f hf).1 hd
   · exact children_pre E env s perms hparts.2.1 children hmem
 
 theorem decode_pre_of (j : JVal) (t : PTy) (ht : tyWF env t = true)
@@ -476,14 +474,14 @@ theorem decode_pre_of (j : JVal) (t : PTy) (ht : tyWF env t = true)
           · rename_i hd
             cases h
             have htw : tyWF env (.struct {} cls) = true := by simpa [tyWF] using ht
-            have := getDefault_pre E env hwf (.struct {} cls) htw (fun _ _ h' => by cases h') hd
+            have := getDefault_pre E env hwf (.struct {} cls) htw hd
             simp only [getDefault, PTy.flags, Bool.false_eq_true, if_false, Pre] at this
             rw [validB_struct_struct] at this ⊢
             exact this
           · simp [verr] at h
       case obj kvs =>
         rw [memberTable_struct env perms strict fl cls s kvs hs] at h
-        obtain ⟨slots, rfl, h1, h2⟩ := finishStruct_valid E env perms strict hwf hff hcat hvis hdt cls s hs kvs _ v
+        obtain ⟨slots, rfl, h1, h2⟩ := finishStruct_valid E env perms strict hwf hff hcat hvis cls s hs kvs _ v
           (hmem kvs _ rfl (fun p hp => structTable_tyWF env hwf perms cls s hs p hp)) h
         exact struct_valid E env hwf fl cls s hs slots h1 h2
       all_goals simp [verr] at h
@@ -514,7 +512,7 @@ theorem decode_pre_of (j : JVal) (t : PTy) (ht : tyWF env t = true)
                 simp only [Bool.false_eq_true, if_false] at h
                 obtain ⟨_, _, _, d, hd, _, _⟩ := subtype_registered env hwf cls s hs _ _ hf
                 rw [memberTable_tree_leaf env perms strict fl cls tag sc s d tags kvs htag hs hf hd] at h
-                obtain ⟨slots, rfl, h1, h2⟩ := finishStruct_valid E env perms strict hwf hff hcat hvis hdt sc d hd kvs _ v
+                obtain ⟨slots, rfl, h1, h2⟩ := finishStruct_valid E env perms strict hwf hff hcat hvis sc d hd kvs _ v
                   (hmem kvs _ rfl (fun p hp => structTable_tyWF env hwf perms sc d hd p hp)) h
                 obtain ⟨g1, g2⟩ := tree_leaf_facts env hwf cls s hs tag tags sc hf
                 rw [validB_tree_struct, g1, g2, h1, h2]; rfl
@@ -621,7 +619,7 @@ theorem decode_pre_of (j : JVal) (t : PTy) (ht : tyWF env t = true)
                         simp only [isPlainStruct, if_true, memberTableStruct_struct env perms sfl sc d hd] at h
                         split at h
                         · rename_i sv hfs
-                          obtain ⟨slots, rfl, h1, h2⟩ := finishStruct_valid E env perms strict hwf hff hcat hvis hdt
+                          obtain ⟨slots, rfl, h1, h2⟩ := finishStruct_valid E env perms strict hwf hff hcat hvis
                             sc d hd kvs _ sv
                             (hmem kvs _ rfl (fun p hp => structTable_tyWF env hwf perms sc d hd p hp)) hfs
                           exact hpresent tag _ _ v hft (struct_valid E env hwf sfl sc d hd slots h1 h2) h
@@ -665,20 +663,20 @@ theorem decode_pre_of (j : JVal) (t : PTy) (ht : tyWF env t = true)
 mutual
 theorem decode_pre : ∀ (j : JVal) (t : PTy), tyWF env t = true →
     ∀ v, decode E env perms strict t j = .ok v → Pre E env t v
-  | .null, t, ht => decode_pre_of E env perms strict hwf hff hcat hvis hdt _ t ht (fun _ _ h => by cases h)
+  | .null, t, ht => decode_pre_of E env perms strict hwf hff hcat hvis _ t ht (fun _ _ h => by cases h)
       (fun _ _ h => by cases h) (fun _ _ h => by cases h)
-  | .bool _, t, ht => decode_pre_of E env perms strict hwf hff hcat hvis hdt _ t ht (fun _ _ h => by cases h)
+  | .bool _, t, ht => decode_pre_of E env perms strict hwf hff hcat hvis _ t ht (fun _ _ h => by cases h)
       (fun _ _ h => by cases h) (fun _ _ h => by cases h)
-  | .int _, t, ht => decode_pre_of E env perms strict hwf hff hcat hvis hdt _ t ht (fun _ _ h => by cases h)
+  | .int _, t, ht => decode_pre_of E env perms strict hwf hff hcat hvis _ t ht (fun _ _ h => by cases h)
       (fun _ _ h => by cases h) (fun _ _ h => by cases h)
-  | .flt _, t, ht => decode_pre_of E env perms strict hwf hff hcat hvis hdt _ t ht (fun _ _ h => by cases h)
+  | .flt _, t, ht => decode_pre_of E env perms strict hwf hff hcat hvis _ t ht (fun _ _ h => by cases h)
       (fun _ _ h => by cases h) (fun _ _ h => by cases h)
-  | .str _, t, ht => decode_pre_of E env perms strict hwf hff hcat hvis hdt _ t ht (fun _ _ h => by cases h)
+  | .str _, t, ht => decode_pre_of E env perms strict hwf hff hcat hvis _ t ht (fun _ _ h => by cases h)
       (fun _ _ h => by cases h) (fun _ _ h => by cases h)
-  | .arr xs, t, ht => decode_pre_of E env perms strict hwf hff hcat hvis hdt _ t ht
+  | .arr xs, t, ht => decode_pre_of E env perms strict hwf hff hcat hvis _ t ht
       (fun xs' item h hi => by cases h; exact decodeList_pre xs item hi)
       (fun _ _ h => by cases h) (fun _ _ h => by cases h)
-  | .obj kvs, t, ht => decode_pre_of E env perms strict hwf hff hcat hvis hdt _ t ht (fun _ _ h => by cases h)
+  | .obj kvs, t, ht => decode_pre_of E env perms strict hwf hff hcat hvis _ t ht (fun _ _ h => by cases h)
       (fun kvs' vt h hv => by cases h; exact decodeMap_pre kvs vt hv)
       (fun kvs' tbl h htbl => by cases h; exact decodeMembers_pre kvs tbl htbl)
 theorem decodeList_pre : ∀ (xs : List JVal) (t : PTy), tyWF env t = true →
